@@ -61,6 +61,10 @@ def run_topology(v: Verdict, props: tuple[str, ...]) -> None:
                       "stub parser harness/sds.py is hand-written", "mypy 1.20.2"]
 
 
+def _plain2(sc):
+    return {"kind": sc["kind"], "exports": sc["exports"], "variant": sc.get("variant", "distinct")}
+
+
 def _plain(sc):
     return {k: sc[k] for k in ("kind", "dname", "stem", "place", "reexp")}
 
@@ -69,8 +73,8 @@ def _obs(sc, r, rootname, isolated=False):
     return {"id": sc["id"], "sc": _plain(sc), "obs": topo.observe(sc, Stubs(r), api_index(r.api()), rootname)}
 
 
-def run_topology2(v: Verdict) -> None:
-    """Universe U2 (spec/Package2.tla): two declarations with interacting re-exports; judged for C03."""
+def run_topology2(v: Verdict, props=("C03",)) -> None:
+    """Universe U2 (spec/Package2.tla): two declarations with interacting re-exports; judged for C03 (and C04: same-name / suffix variants)."""
     from pygen import write_pkg
     scs = generate(v, "Package2", "Topo2_MC.cfg", min_records=50)
     if not scs:
@@ -92,10 +96,10 @@ def run_topology2(v: Verdict) -> None:
             continue
         stubs = Stubs(r)
         for sc in chunk:
-            obs.append({"id": sc["id"], "sc": {"kind": sc["kind"], "exports": sc["exports"]}, "obs": topo.u2_observe(sc, stubs, d.name)})
+            obs.append({"id": sc["id"], "sc": _plain2(sc), "obs": topo.u2_observe(sc, stubs, d.name, api_index(r.api() or {}))})
     if not obs:
         return
-    bad = [b for b in judge(v, "Topo2_Trace", obs) if b.get("property") == "C03"]
+    bad = [b for b in judge(v, "Topo2_Trace", obs) if b.get("property") in props]
     by_id = {o["id"]: o for o in obs}
     failing = sorted({b["subject"] for b in bad})
     if failing:      # isolation re-run (DESIGN 6.4)
@@ -107,9 +111,9 @@ def run_topology2(v: Verdict) -> None:
             files.update(topo.u2_files(sc, root))
             singles.append((sc, write_pkg(files, root)))
         rs = run_many([{"src": p, "opts": Opts(), "timeout": 300} for _, p in singles])
-        iso = [{"id": sc["id"], "sc": {"kind": sc["kind"], "exports": sc["exports"]}, "obs": topo.u2_observe(sc, Stubs(r), p.name)}
+        iso = [{"id": sc["id"], "sc": _plain2(sc), "obs": topo.u2_observe(sc, Stubs(r), p.name, api_index(r.api() or {}))}
                for (sc, p), r in zip(singles, rs) if r.exit == "ok"]
-        bad = [b for b in judge(v, "Topo2_Trace", iso) if b.get("property") == "C03"] if iso else []
+        bad = [b for b in judge(v, "Topo2_Trace", iso) if b.get("property") in props] if iso else []
         src = {sc["id"]: str(p) for sc, p in singles}
         for b in bad:
             b["scenario"] = by_id[b["subject"]]["sc"]
